@@ -22,7 +22,7 @@ CLAIMS = {
          "6.C04", "X-Forwarded-For <= 4 (6) ASCII bytes; four representative peer addresses; textual variants of one IP are different strings by design of the property."),
  "C05": ("BasicAuth / NTLMAuth middlewares and NoAuthz/SetAuthenticate executed symbolically against a stubbed authentication service (next handler reached iff the backend confirmed, identity = confirmed name, 401/500 and challenge headers otherwise, no panic for any header value the route matcher can deliver), and the route table that main() builds for every startable subset of mechanisms: the tunnel handler is reachable bare iff OpenID is the only mechanism, otherwise only through the wrapper of an enabled scheme whose keyword the header carries; no header -> 401 with one challenge per enabled scheme.",
          "6.C05", "main() is executed up to ListenAndServe with gorilla/mux's builder methods recording a ghost route table (VP_C05_routes): requests with an arbitrary Authorization value (<= 9/12 bytes) are dispatched by mux's documented rules (registration order, unanchored HeadersRegexp, MatcherFunc), for every startable mechanism subset. gorilla/mux's own matching, regexp beyond literal words, SPNEGO validation and net/http header parsing are contracts, not decided."),
- "C06": ("forward() and receive() executed symbolically: per read / per DATA packet exactness, header and payload length fields, order, single write, no invented bytes; sizes around 0,1,2,255,4085,4086,65535,65536 (thorough 256,4087,70000); K-packet DATA/KEEPALIVE streams through the packet loop; the real LegacyPKT/WSPKT transports over a modelled peer (stalls, resets, write deadlines, message types).",
+ "C06": ("forward() and receive() executed symbolically: per read / per DATA packet exactness, header and payload length fields, order, single write, no invented bytes; the relay reached through the packet loop with read sizes around 0,1,2,255,4085..4087,65535,65536 (thorough 256,70000,131072) and socket-buffer settings up to 262144; K-packet DATA/KEEPALIVE streams through the packet loop; the real LegacyPKT/WSPKT transports over a modelled peer (stalls, resets, write deadlines, message types).",
          "6.C06", "net.Conn / gorilla Conn are contract models (DESIGN 6.C06); whole-stream exactness follows from per-packet exactness plus C08 framing (paper argument); multi-MiB streams and interleaving of the two directions are outside."),
  "C07": ("One arbitrary packet on tunnel A from an arbitrary phase while a fully symbolic tunnel B is registed: B's phase, identity, token host, address, transports, backend and registry entry and the shared Gateway are asserted unchanged; HandleGatewayProtocol run for two requests with symbolic connection ids and kinds shows connections share a tunnel only under equal ids.",
          "6.C07", "2 tunnels, 1 step; 3..64 tunnels and real scheduling are not explored (commutation of disjoint steps is a paper argument); go-cache is a contract stub; two different PAA tokens presented in a row bind each tunnel to its own token only (VP_C07_cookie_isolation)."),
